@@ -99,6 +99,52 @@ def win_cases(seed, big):
     return out
 
 
+def win_env_cases(seed, big):
+    """C06, Windows variant: environment lists with duplicate names in any position and any ASCII case, non-ASCII
+    names that must NOT be folded, '=' and odd units in values, empty lists, NUL in a name or a value"""
+    rng = random.Random(seed * 2971215073 + 20)
+    u = lambda t: [ord(c) for c in t]
+    names = [u("a"), u("A"), u("b"), u("ab"), u("Ab"), u("aB"), u("AB"), [233], [201], u("Path"), u("PATH"), u("path"),
+             u("x y"), u("n" * 300), [0x0130], [0x0131], u("i"), u("I")]
+    values = [[], u("x"), u("="), u("a=b"), u(" "), [0xD800], [0xFFFF, 0x20AC], u("v" * (5000 if big else 800)), u("C:\\dir;D:\\q")]
+    out = []
+    i = 0
+    out.append({"id": "e%d" % i, "kind": "winenv", "env": []})
+    i += 1
+    for n in names:
+        out.append({"id": "e%d" % i, "kind": "winenv", "env": [[n, u("v")]]})
+        i += 1
+    for _ in range(600 if big else 150):
+        k = rng.randint(1, 8)
+        pool = rng.sample(names, rng.randint(1, 4))
+        env = [[rng.choice(pool), rng.choice(values)] for _ in range(k)]
+        out.append({"id": "e%d" % i, "kind": "winenv", "env": env})
+        i += 1
+    for env in ([[u("a"), [120, 0, 66, 61, 121]]], [[[97, 0], u("v")]], [[u("a"), u("1")], [[0], []]], [[u("a"), [0]], [u("A"), u("2")]],
+                [[u("k"), u("v")], [u("K"), [118, 0]]]):
+        out.append({"id": "e%d" % i, "kind": "winenv", "env": env})
+        i += 1
+    return out
+
+
+def run_cases(cases, tag):
+    """run quote_replay on the cases and validate the trace; returns (results, states)"""
+    wd = workdir("quote_" + tag)
+    cpath = os.path.join(wd, "cases.ndjson")
+    with open(cpath, "w") as f:
+        for c in cases:
+            f.write(json.dumps(c) + "\n")
+    tpath = os.path.join(wd, "trace.ndjson")
+    r = run_harness([os.path.join(BIN, "quote_replay"), cpath, tpath], 1500)
+    if r.returncode != 0:
+        log(r.stderr[-2000:])
+        raise ToolError("quote_replay failed with status %d (were the Windows functions renamed?)" % r.returncode)
+    results, tv_states, _ = validate_sharded_lines(tpath, "quote_" + tag)
+    if len(results) != len(cases):
+        raise ToolError("validated %d cases but ran %d" % (len(results), len(cases)))
+    return results, tv_states
+
+
 def run(pid, tier, seed, replay=None):
     t0 = time.time()
     build_harness()
